@@ -15,10 +15,10 @@ func (s C02Side) Set() []int {
 }
 
 type C02Case struct {
-	Host   C02Side        `json:"host"`
-	Plugin C02Side        `json:"plugin"`
-	Proto  map[string]string `json:"proto"` // version -> netrpc | grpc (same on both sides)
-	EnvRaw string         `json:"envRaw"` // "" = not run; otherwise the PLUGIN_PROTOCOL_VERSIONS value for a direct run ("<unset>" = variable absent)
+	Host   C02Side           `json:"host"`
+	Plugin C02Side           `json:"plugin"`
+	Proto  map[string]string `json:"proto"`  // version -> netrpc | grpc (same on both sides)
+	EnvRaw string            `json:"envRaw"` // "" = not run; otherwise the PLUGIN_PROTOCOL_VERSIONS value for a direct run ("<unset>" = variable absent)
 }
 
 type C02Obs struct {
